@@ -600,9 +600,9 @@ def check_editor_completion_content(ctx, res):
                     else:
                         i = fm.lin_atom(first[1])
                         cand = [fm.add(valid0, fm.lin_atom(at), -1) for (at, b_, off, sl, byte, rev) in poss
-                                if b_ == 'B' and byte == ('ne', 0x20) and rev and eq(off, i) and eq(sl, fm.add(valid0, i, -1))]
+                                if b_ == 'B' and byte == ('ne', 0x20) and rev is True and eq(off, i) and eq(sl, fm.add(valid0, i, -1))]
                         cand += [i for (b_, off, sl, byte, rev) in nones
-                                 if b_ == 'B' and byte == ('ne', 0x20) and rev and eq(off, i) and eq(sl, fm.add(valid0, i, -1))]
+                                 if b_ == 'B' and byte == ('ne', 0x20) and rev is True and eq(off, i) and eq(sl, fm.add(valid0, i, -1))]
                         ob('blank-search', len(cand) == 1, "the blanks to set aside are not found by one backward search for the last non-blank over text[i..]")
                         if len(cand) != 1:
                             return
